@@ -1248,3 +1248,28 @@ package diam
 //@     hint sumlen.elem(g.AVP, rangeindex + 1)
 //@   end
 //@ end
+//@
+//@ # ======================= server.go: the connection's context and Close (C10, C11, C15) =====
+//@ # the state machine keeps the peer's metadata in the connection's context and closes rejected peers through the
+//@ # connection handed to handlers; these pin what the library's own connection type does with both (the state machine's
+//@ # contracts talk about any diam.Conn through the trusted interface contracts)
+//@ func (*response).SetContext(w, ctx)
+//@   property C10 C11
+//@   requires w != nil && !locked(&w.xmu)
+//@   modifies w.ctx, locked(&w.xmu)
+//@   ensures [C10 C11] the_context_given_is_kept: w.ctx == ctx && !locked(&w.xmu)
+//@ end
+//@ func (*response).Context(w) (r)
+//@   property C10 C11
+//@   requires w != nil && !locked(&w.xmu)
+//@   modifies w.ctx, locked(&w.xmu)
+//@   ensures [C10 C11] the_context_last_set: old(w.ctx) != nil ==> r == old(w.ctx) && w.ctx == old(w.ctx)
+//@   ensures [C10 C11] never_nil: r != nil && w.ctx == r && !locked(&w.xmu)
+//@ end
+//@ func (*response).Close(w)
+//@   property C11 C15
+//@   requires w != nil && w.conn != nil && w.conn.rwc != nil
+//@   atcall Close: [C11 C15] closes_the_transport_of_this_connection: ARG0 == w.conn.rwc
+//@   modifies rwcclosed(w.conn.rwc)
+//@   ensures [C11 C15] closed: rwcclosed(w.conn.rwc) == old(rwcclosed(w.conn.rwc)) + 1
+//@ end
